@@ -547,6 +547,22 @@ func c05tGen(tier string, rng *rand.Rand) []tCase {
 			}
 		}
 	}
+	// the byte vector member written as a LIST (admissible on the wire) with hostile counts: the generated LIST branch
+	// allocates the announced count (known finding of C05, listed for this stream too)
+	{
+		v := rspEntry.mk().(*requestf.ResponsePacket)
+		v.IVersion, v.IRequestId, v.SBuffer = 1, 7, []int8{}
+		body, _ := gEncode(v)
+		if sp, ok := walkTop(body); ok {
+			for _, s := range sp {
+				if s.Ty == 13 && s.Tag == 6 {
+					for _, h := range [][]byte{{0x00, 0xff}, {0x02, 0x7f, 0xff, 0xff, 0xff}, {0x02, 0x00, 0x01, 0x00, 0x00}, {0x00, 0x02, 0x00, 0x01, 0x00, 0x02}, {0x00, 0x03, 0x0c}} {
+						unp("list-coded-bytes", fmt.Sprintf("sBuffer as LIST, count % x", h), c05Frame(cat(body[:s.Start], []byte{0x69}, h, body[s.End:])))
+					}
+				}
+			}
+		}
+	}
 	for l := 0; l <= 6; l++ { // shorter than the header: pkg[4:] must not be reached through ParsePackage
 		pk := make([]byte, l)
 		for k := range pk {
@@ -622,7 +638,7 @@ func c05tRunAll(cs []tCase) [][]Failure {
 		ent := map[string]string{"tdec": "tup/decode", "prsp": "packet/response-unpack", "pparse": "packet/parse-package"}[c.Kind]
 		if r.Died != "" {
 			c.NoCoq = true
-			fails[i] = append(fails[i], Failure{Sig: ent + "/process-death", Desc: fmt.Sprintf("%s %s: the worker died or hung: %s (input % x)", c.Class, c.Note, r.Died, trunc(c.Bytes))})
+			fails[i] = append(fails[i], Failure{Sig: ent + "/process-death/" + tDeathClass(r.Died), Desc: fmt.Sprintf("%s %s: the worker died or hung: %s (input % x)", c.Class, c.Note, r.Died, trunc(c.Bytes))})
 			continue
 		}
 		var rs tWorkResp
@@ -662,6 +678,17 @@ func c05tRunAll(cs []tCase) [][]Failure {
 		}
 	}
 	return fails
+}
+
+// tDeathClass: why the worker was lost (narrow signatures: a hang is never confused with an allocation failure)
+func tDeathClass(died string) string {
+	switch {
+	case strings.Contains(died, "timeout"):
+		return "timeout"
+	case strings.Contains(died, "out of memory") || strings.Contains(died, "cannot allocate"):
+		return "out-of-memory"
+	}
+	return "other"
 }
 
 func sameSet(a, b []tKV) bool {
